@@ -395,8 +395,8 @@ JRebuild(ev, reg, opts) ==
   IN IF v.kind # "poly" THEN "machinery_operand"
      ELSE IF own # "ok" THEN own
      ELSE IF ev.res[1].kind # "poly" THEN "ok"
-     ELSE IF ev.res[1].dtype # v.dtype THEN "dtype"
-     ELSE IF opts.retain_names /\ ev.res[1].names # v.names THEN "names"
+     ELSE IF ev.via # "sympy" /\ ev.res[1].dtype # v.dtype THEN "dtype"
+     ELSE IF ev.via # "sympy" /\ opts.retain_names /\ ev.res[1].names # v.names THEN "names"
      ELSE "ok"
 \* numpoly.variable(n) / symbols: the array of the n indeterminates q0 .. q(n-1) (0-d for n = 1)
 JVariable(ev) ==
@@ -407,7 +407,7 @@ JVariable(ev) ==
 
 \* ---------------------------------------------------------------- C04 alignment
 OpNames(r) == IF r.v.kind = "poly" THEN RangeOf(r.v.names) ELSE {0}     \* a number becomes a polynomial in q0
-JAlign(ev, reg) ==
+JAlign(ev, reg, opts) ==
   LET n == Len(ev.args)
       ds == [i \in 1..n |-> reg[ev.args[i]].d]
       shapes == [i \in 1..n |-> ds[i].shape]
@@ -424,7 +424,8 @@ JAlign(ev, reg) ==
                 want == IF doShape THEN DBroadcast(ds[i], common) ELSE ds[i]
                 own == ExpectDenAt(ev, i, "poly", want)
             IN IF own # "ok" THEN own
-               ELSE IF doNames /\ r.names # allNames THEN "names"
+               ELSE IF doNames /\ opts.retain_names /\ r.names # allNames THEN "names"
+               ELSE IF doNames /\ (r.names # ev.res[1].names \/ ~(RangeOf(r.names) \subseteq RangeOf(allNames))) THEN "names"
                ELSE IF doRows /\ (r.rows # ev.res[1].rows \/ r.keys # ev.res[1].keys) THEN "rows"
                ELSE "ok"])
 \* aligning aligned arguments changes nothing (representation level)
@@ -525,6 +526,59 @@ JSame(ev, reg) ==
      ELSE IF a.v.kind = "poly" /\ a.v.names # b.v.names THEN "names"
      ELSE "ok"
 
+\* ------------------------------------------------- C13 pickle, copy, text round trips
+TermSet(v) == {<<v.rows[r], v.coefs[r]>> : r \in 1..Len(v.rows)}
+JCopy(ev, reg) ==          \* pickle (any protocol), copy.copy, copy.deepcopy, .copy()
+  LET o == reg[ev.args[1]].v
+  IN IF ev.out # "ret" THEN "raised"
+     ELSE LET r == ev.res[1]
+          IN IF r.kind # "poly" \/ o.kind # "poly" THEN "type"
+             ELSE IF r.shape # o.shape THEN "shape"
+             ELSE IF r.dtype # o.dtype THEN "dtype"
+             ELSE IF r.names # o.names THEN "names"
+             ELSE IF Len(r.rows) # Len(o.rows) \/ RangeOf(r.rows) # RangeOf(o.rows) THEN "rows"
+             ELSE IF Size(o.shape) > 0 /\ TermSet(r) # TermSet(o) THEN "value" ELSE "ok"
+JSaveLoad(ev, reg, opts) ==      \* savetxt then loadtxt; values are chosen exactly representable in the format
+  LET o == reg[ev.args[1]].v  a == reg[ev.args[1]].d
+  IN IF ev.out # "ret" THEN "raised"
+     ELSE LET r == ev.res[1]
+          IN IF r.kind # "poly" THEN "type"
+             ELSE IF r.shape # a.shape THEN "shape"
+             ELSE IF opts.retain_names /\ r.names # o.names THEN "names"     \* (C15: retain_names decides about unused names)
+             ELSE IF ~(RangeOf(r.names) \subseteq RangeOf(o.names)) THEN "names"
+             ELSE IF Den(r).el # a.el THEN "value" ELSE "ok"
+JLoadPlain(ev, reg) ==     \* a file without the numpoly header loads as a plain array
+  LET a == reg[ev.args[1]].d
+  IN IF ev.out # "ret" THEN "raised"
+     ELSE LET r == ev.res[1]
+          IN IF r.kind # "array" THEN "type"
+             ELSE IF Size(r.shape) # Size(a.shape) THEN "shape"
+             ELSE IF r.vals # [k \in 1..Len(a.el) |-> IF a.el[k] = EZero THEN NZero ELSE a.el[k][MOne]] THEN "value"
+             ELSE "ok"
+
+\* ------------------------------------------------------ C16 str / repr / sympy
+\* ev.terms: per array element (C order) the printed terms, each
+\* [sign |-> 1 | -1, coef |-> Num, factors |-> <<<<name id, exponent>>, ...>>] as lexed from the text
+TermMono(t) == MNorm([n \in {t.factors[i][1] : i \in 1..Len(t.factors)} |->
+                        FoldLeft(LAMBDA acc, i : acc + (IF t.factors[i][1] = n THEN t.factors[i][2] ELSE 0), 0,
+                                 [i \in 1..Len(t.factors) |-> i])])
+TermPoly(t) == ETerm(IF t.sign < 0 THEN NNeg(t.coef) ELSE t.coef, TermMono(t))
+JText(ev, reg, opts) ==
+  LET v == reg[ev.args[1]].v  a == reg[ev.args[1]].d
+      names == IF v.kind = "poly" THEN v.names ELSE <<0>>
+  IN IF ev.out # "ret" THEN "raised"
+     ELSE IF ev.lexerror # "" THEN "value_unreadable"
+     ELSE IF Len(ev.terms) # Len(a.el) THEN "shape"
+     ELSE IF \E k \in 1..Len(a.el) : ESumSeq([i \in 1..Len(ev.terms[k]) |-> TermPoly(ev.terms[k][i])]) # a.el[k]
+          THEN "value"
+     ELSE IF \E k \in 1..Len(a.el) : \E i \in 1..(Len(ev.terms[k]) - 1) :
+               LET m1 == TermMono(ev.terms[k][i])  m2 == TermMono(ev.terms[k][i + 1])
+               IN IF opts.display_inverse
+                  THEN ~MLess(m2, m1, names, opts.display_graded, opts.display_reverse)
+                  ELSE ~MLess(m1, m2, names, opts.display_graded, opts.display_reverse)
+          THEN "value_order"
+     ELSE "ok"
+
 \* -------------------------------------------------------------- C14 options
 OptAct(ev) == ev.act \in {"set_options", "enter", "exit", "exit_exc", "get_mutate", "get_defaults"}
 NextOpts(ev, opts, ctx) ==
@@ -546,15 +600,22 @@ JOption(ev, opts, ctx) ==
     [] ev.act = "get_defaults" -> IF ev.out = "ret" /\ ev.seen = DefaultOptions THEN "ok" ELSE "defaults"
 
 \* ------------------------------------------------------------------ dispatch
-NeedsDen(ev) == ev.act \in {"polydiv", "same", "copyto", "rebuild", "align", "arith", "unary", "move", "reduce", "call", "deriv", "compare", "extreme", "lead", "tonumpy", "todict", "decompose", "set_dimensions"}
+NeedsDen(ev) == ev.act \in {"text", "copy", "saveload", "loadplain", "polydiv", "same", "copyto", "rebuild", "align", "arith", "unary", "move", "reduce", "call", "deriv", "compare", "extreme", "lead", "tonumpy", "todict", "decompose", "set_dimensions"}
+\* C20: where an exponent cannot be represented the only other allowed outcome is an error
+BigExponent == 55000
 Own(ev, reg, opts, ctx) ==
   CASE ev.act = "new" -> "ok"
+    [] ev.prop = "C20" /\ ev.out = "raise" /\ ev.bigexp >= BigExponent -> "ok"
     [] \E i \in 1..Len(ev.args) : ev.args[i] \notin 1..Len(reg) -> "machinery_operand"
     [] (NeedsDen(ev) \/ (ev.act = "dtype" /\ ev.fn \in {"construct", "arith"})) /\ \E i \in 1..Len(ev.args) : reg[ev.args[i]].d = <<>> -> "machinery_operand"
     [] ev.act = "arith" -> JArith(ev, reg)
     [] ev.act = "unary" -> JUnary(ev, reg)
     [] ev.act = "move" -> JMove(ev, reg, opts)
     [] ev.act = "reduce" -> JReduce(ev, reg)
+    [] ev.act = "text" -> JText(ev, reg, opts)
+    [] ev.act = "copy" -> JCopy(ev, reg)
+    [] ev.act = "saveload" -> JSaveLoad(ev, reg, opts)
+    [] ev.act = "loadplain" -> JLoadPlain(ev, reg)
     [] ev.act = "polydiv" -> JPolyDiv(ev, reg)
     [] ev.act = "same" -> JSame(ev, reg)
     [] ev.act = "dtype" -> JDType(ev, reg)
@@ -563,7 +624,7 @@ Own(ev, reg, opts, ctx) ==
     [] ev.act = "from_attributes" -> JFromAttributes(ev, opts)
     [] ev.act = "rebuild" -> JRebuild(ev, reg, opts)
     [] ev.act = "variable" -> JVariable(ev)
-    [] ev.act = "align" -> JAlign(ev, reg)
+    [] ev.act = "align" -> JAlign(ev, reg, opts)
     [] ev.act = "realign" -> JRealign(ev, reg)
     [] ev.act = "call" -> JCall(ev, reg)
     [] ev.act = "deriv" -> JDeriv(ev, reg)
